@@ -58,11 +58,12 @@ class Compose(Contract):
         L = v.NL(n - 1)
         step = z3.If(v.K(idx) == K['Leaf'], 1, 0)
         return [('PL-step', z3.Implies(idx < n, P1 == P + step)),
-                ('PL-step-scaled', z3.Implies(P1 == P + step, P1 * m == P * m + z3.If(v.K(idx) == K['Leaf'], m, 0))),
+                ('PL-step-scaled', z3.Implies(P1 == P + step, P1 * m == P * m + z3.If(v.K(idx) == K['Leaf'], m, 0)), 'pure'),
                 ('total-leaves', L == v.PL(n)),
-                ('exit-congruence', z3.Implies(idx == n, z3.And(v.NL(idx - 1) * m == L * m, v.NL(idx - 1) * l == L * l,
-                                                                v.NN(idx - 1) == n))),
-                ('congruence-total', z3.Implies(L == v.PL(n), z3.And(L * m == v.PL(n) * m, L * l == v.PL(n) * l)))]
+                ('congruence-total', z3.Implies(L == v.PL(n), z3.And(L * m == v.PL(n) * m, L * l == v.PL(n) * l)), 'pure'),
+                ('exit-congruence', z3.Implies(idx == n, z3.And(v.NL(idx - 1) * m == L * m, v.NL(idx - 1) * l == L * l)),
+                 'pure'),
+                ('exit-root', z3.Implies(idx == n, v.NN(idx - 1) == n))]
 
     def body_post(self, cx):
         v, w, m, l = self.sizes(cx)
